@@ -1,7 +1,7 @@
 (* C07 - a validated identifier can only ever be an identifier.  Statements only.
    Decided for the whole (infinite) language of the pattern read from the current source. *)
-From Coq Require Import String List Ascii NArith Bool.
-From QRB Require Import Base.Bytes Pg.Lexer Meta.LexCtrl Meta.Regex Meta.RegexLang Meta.Product Meta.Safe.
+From Coq Require Import String List Ascii NArith ZArith Bool.
+From QRB Require Import Base.Bytes Pg.Lexer Meta.LexCtrl Meta.Regex Meta.RegexLang Meta.Product Meta.Safe Meta.MultiByte.
 From QRB Require Import Gen.Regex Obl.PatternSafe.
 From QRB Require Import Model.W Model.Values Model.Compile.
 Import ListNotations.
@@ -26,6 +26,30 @@ Proof.
   - rewrite alphabet_eq. apply decode_in_alphabet.
   - exact H.
 Qed.
+
+(* ... and the same holds for the bytes themselves: a non-ASCII rune of the name is 1 to 4 bytes >= 0x80 (an invalid
+   sequence is what Go's regexp reads as U+FFFD, one byte at a time); the lexer's control treats all such bytes
+   alike and is not changed by further ones (Meta/MultiByte.v), so the token kinds of the real text are those of
+   the text with one byte per rune *)
+Theorem C07_safe_bytes :
+  forall s, re_match minterm_table ident_re s = true ->
+    let l := decode_syms minterm_table s in
+    uamp_run true LInit l = true \/ has_nul l = true \/
+    exists ts, lex_from true LInit s = Some ts /\
+               (oaccept false (shape_of false (map tkind ts)) = true \/ shape_of false (map tkind ts) = OKF).
+Proof.
+  intros s H. cbv zeta. destruct (C07_safe s H) as [A|[A|A]]; [now left|right; now left|right; right].
+  exact (multibyte_transfer true minterm_table s
+           (fun ks => oaccept false (shape_of false ks) = true \/ shape_of false ks = OKF) A).
+Qed.
+
+(* non-vacuity: a name with 2-, 3- and 4-byte runes *)
+Example C07_multibyte_example :
+  let s := String.append "na" (String.append (utf8_encode 233%Z) (String.append (utf8_encode 20013%Z) (utf8_encode 119964%Z))) in
+  String.length s = 11%nat /\ re_match minterm_table ident_re s = true /\
+  option_map (map tkind) (lex_from true LInit s) = Some [KWord false].
+Proof. vm_compute. repeat split. Qed.
+
 
 (* the emitted text is the stored string unchanged (or nothing, with an error) *)
 Theorem C07_verbatim :
@@ -59,4 +83,6 @@ Example C07_accepts :
 Proof. split; vm_compute; reflexivity. Qed.
 
 Print Assumptions C07_safe.
+Print Assumptions C07_safe_bytes.
+Print Assumptions C07_multibyte_example.
 Print Assumptions C07_verbatim.
